@@ -68,7 +68,7 @@ def one_history(args):
         shutil.rmtree(d, ignore_errors=True)
 
 
-def run_histories(chk, n, nops, tag_filter, label, family=None, seed_salt='', journal=False):
+def run_histories(chk, n, nops, tag_filter, label, family=None, seed_salt='', journal=False, oracle_tags=()):
     """tag_filter: set of problem tags (the text inside [...]) this property owns; others are ignored here
     (they belong to another property's check) except [other]/[fault], which always count."""
     wl_bin = vlib.build_harness('wl', 'asan', exclude=['db_impl.c'])
@@ -97,7 +97,8 @@ def run_histories(chk, n, nops, tag_filter, label, family=None, seed_salt='', jo
             tag = m.group(2) if m else 'other'
             full = tag + (':' + m.group(3) if m and m.group(3) else '')
             if tag in ('other', 'fault') or tag in tag_filter or full in tag_filter:
-                (viol if p.startswith('VIOLATION') else mism).append((r, p))
+                # oracle_tags: checks evaluated on the implementation's own reported state that ARE this property's statement
+                (viol if p.startswith('VIOLATION') or tag in oracle_tags else mism).append((r, p))
     chk.extra.setdefault('history_totals', {})[label] = totals
     chk.extra['traces_validated_against_impl'] = chk.extra.get('traces_validated_against_impl', 0) + len(results)
     if results:
@@ -116,3 +117,19 @@ def run_histories(chk, n, nops, tag_filter, label, family=None, seed_salt='', jo
             json.dump({'script': r['lines'], 'problems': r['problems'][:20]}, f, indent=1)
     chk.oblige('trace-validation:' + label, not mism, detail)
     return results, totals
+
+
+def replay_script(wl_bin, lines):
+    """re-run a stored script: the scratch directories it names are gone, so they are re-created (and removed again)"""
+    import re, shutil
+    roots = sorted(set(re.findall(r'(/[\w/.-]*lcdb-verif-[\w-]+)', ' '.join(lines))))
+    for r in roots:
+        shutil.rmtree(r, ignore_errors=True)
+        os.makedirs(r, exist_ok=True)
+    try:
+        rc, out, err = run_script(wl_bin, lines)
+        problems, stats = run_tracecheck(out)
+    finally:
+        for r in roots:
+            shutil.rmtree(r, ignore_errors=True)
+    return rc, out, err, problems, stats
